@@ -30,7 +30,7 @@ pkgs = sorted({"./" + os.path.dirname(f) + "/" if os.path.dirname(f) else "." fo
 named = re.findall(r"(?<![\w/])(\./[\w/]+/?(?:\.\.\.)?|(?<=\s)\.(?=\s))", meta.get("existing_tests_run", ""))
 allp = sorted(set(pkgs) | {p for p in named if os.path.isdir(os.path.join(W, p.replace("...", "").rstrip("/") or "."))})
 demo = meta.get("demo", "")
-m = re.search(r"(?:to|as)\s+`?([\w./-]+_test\.go)`?", demo)
+m = re.search(r"(?:to|as)\s+`?(?:<repo root>/|the repo(?:sitory)? root as\s+)?`?([\w./-]+_test\.go)`?", demo)
 dest = m.group(1) if m else None
 m = re.search(r"go test [^`\n;]*?-run\s+\S+\s+\S+", demo)
 cmd = m.group(0) if m else None
